@@ -271,8 +271,13 @@ struct SkOut {
     plan: Vec<Vec<f32>>,
 }
 fn run_sinkhorn(mu: &Histogram, nu: &Histogram, metric: &Metric) -> Option<SkOut> {
+    run_sinkhorn_n(mu, nu, metric, 1)
+}
+/// `minimize()` applied `reps` times to the same coupling
+fn run_sinkhorn_n(mu: &Histogram, nu: &Histogram, metric: &Metric, reps: usize) -> Option<SkOut> {
     catch(AssertUnwindSafe(|| {
-        let sk = Sinkhorn::from((mu, nu, metric)).minimize();
+        let mut sk = Sinkhorn::from((mu, nu, metric));
+        for _ in 0..reps { sk = sk.minimize(); }
         let l = sk.verif_lhs();
         let r = sk.verif_rhs();
         let plan = l.iter().map(|(x, _)| r.iter().map(|(y, _)| sk.verif_coupling(x, y)).collect()).collect();
@@ -282,11 +287,14 @@ fn run_sinkhorn(mu: &Histogram, nu: &Histogram, metric: &Metric) -> Option<SkOut
 }
 
 fn sk_case(run: &mut Run, tag: &str, mu: &Histogram, nu: &Histogram, metric: &Metric, do_ot: bool) {
+    sk_case_n(run, tag, mu, nu, metric, do_ot, 1)
+}
+fn sk_case_n(run: &mut Run, tag: &str, mu: &Histogram, nu: &Histogram, metric: &Metric, do_ot: bool, reps: usize) {
     run.evaluations += 1;
-    let op = format!("sk {} {} {}", hist_str(mu), hist_str(nu), metric_str(metric));
+    let op = if reps == 1 { format!("sk {} {} {}", hist_str(mu), hist_str(nu), metric_str(metric)) } else { format!("skn {reps} {} {} {}", hist_str(mu), hist_str(nu), metric_str(metric)) };
     let (n, m) = (mu.n(), nu.n());
-    let short = format!("sinkhorn[{tag}] mu={} nu={}", hist_str(mu), hist_str(nu));
-    let out = match run_sinkhorn(mu, nu, metric) {
+    let short = format!("sinkhorn[{tag}]{} mu={} nu={}", if reps > 1 { format!(" minimize() x{reps}") } else { String::new() }, hist_str(mu), hist_str(nu));
+    let out = match run_sinkhorn_n(mu, nu, metric, reps) {
         None => {
             run.line(&op, "panic");
             run.fail("sinkhorn-panics", &short, "a plan", "panic");
@@ -521,6 +529,8 @@ fn main() {
                 (gen_hist(&mut rng, &universe, n).0, gen_hist(&mut rng, &universe, m).0)
             };
             greedy_case(&mut run, mkind, &src, &tgt, &metric, disjoint);
+            greedy_case_n(&mut run, mkind, &src, &tgt, &metric, disjoint, 2 + gi % 2);
+            if gi == 0 { sk_case_n(&mut run, &format!("{mkind}/repeat"), &src, &tgt, &metric, true, 2); }
         }
     }
 
@@ -627,7 +637,7 @@ fn main() {
     }
 
     run.rule = format!(
-        "mutate-then-re-measure sequences on the same Histogram objects (emd, absorb, emd; clone then absorb; increment/set between measurements; triangle through an absorbed histogram) for Percent and Learned; supports at the real maxima (129..144 turn buckets as source and target, 101 equity buckets); degenerate suite in every tier (point masses incl. buckets 0/50/100 and mass 1 vs 46, 1-vs-1, 1-vs-many, identical, far-apart disjoint blocks; all ordered pairs and all triples) through Metric::emd, Equity::variation, Sinkhorn and the greedy plan; {} generated metrics (Euclidean 2-D, line, random symmetric, clustered nearly-degenerate, discrete, one-far-pair) over 4..160 learned abstractions, each with {} Sinkhorn instances (support sizes 1..100; uniform/geometric/dominant/random/bimodal masses; every third also as a self-distance) and greedy instances (half with disjoint supports); Sinkhorn on river buckets; {} equity histogram triples (supports 1..101); exhaustive abstraction layout 4x4096; Histogram::from ordering. Exact OT (f64 min-cost flow, dual-certified) on every Sinkhorn/greedy instance. distinct = distinct op lines with support > 1",
+        "minimize() applied 2 and 3 times to the same Heuristic / Sinkhorn coupling (same feasible answer each time, judged by the full oracle); mutate-then-re-measure sequences on the same Histogram objects (emd, absorb, emd; clone then absorb; increment/set between measurements; triangle through an absorbed histogram) for Percent and Learned; supports at the real maxima (129..144 turn buckets as source and target, 101 equity buckets); degenerate suite in every tier (point masses incl. buckets 0/50/100 and mass 1 vs 46, 1-vs-1, 1-vs-many, identical, far-apart disjoint blocks; all ordered pairs and all triples) through Metric::emd, Equity::variation, Sinkhorn and the greedy plan; {} generated metrics (Euclidean 2-D, line, random symmetric, clustered nearly-degenerate, discrete, one-far-pair) over 4..160 learned abstractions, each with {} Sinkhorn instances (support sizes 1..100; uniform/geometric/dominant/random/bimodal masses; every third also as a self-distance) and greedy instances (half with disjoint supports); Sinkhorn on river buckets; {} equity histogram triples (supports 1..101); exhaustive abstraction layout 4x4096; Histogram::from ordering. Exact OT (f64 min-cost flow, dual-certified) on every Sinkhorn/greedy instance. distinct = distinct op lines with support > 1",
         n_metrics, per_metric, n_eq);
     run.finish();
 }
@@ -879,19 +889,29 @@ fn degenerate_suite(run: &mut Run, rng: &mut Rng) {
                 }
                 let disjoint = !x.verif_counts().iter().any(|(a, _)| y.verif_counts().iter().any(|(b, _)| a == b));
                 greedy_case(run, &format!("degenerate-{mname}"), x, y, &metric, disjoint);
+                // minimize() again on an already minimized coupling: the same feasible answer
+                for reps in [2usize, 3] {
+                    greedy_case_n(run, &format!("degenerate-{mname}"), x, y, &metric, disjoint, reps);
+                    if (i + j + reps) % 3 == 0 { sk_case_n(run, &tag, x, y, &metric, true, reps); }
+                }
             }
         }
     }
 }
 
 fn greedy_case(run: &mut Run, mkind: &str, src: &Histogram, tgt: &Histogram, metric: &Metric, disjoint: bool) {
+    greedy_case_n(run, mkind, src, tgt, metric, disjoint, 1)
+}
+/// `minimize()` applied `reps` times to the same coupling: the same feasible plan every time
+fn greedy_case_n(run: &mut Run, mkind: &str, src: &Histogram, tgt: &Histogram, metric: &Metric, disjoint: bool, reps: usize) {
     run.evaluations += 1;
-    let op = format!("greedy {} {} {}", hist_str(src), hist_str(tgt), metric_str(metric));
-    let short = format!("greedy[{mkind}] src={} tgt={}", hist_str(src), hist_str(tgt));
+    let op = if reps == 1 { format!("greedy {} {} {}", hist_str(src), hist_str(tgt), metric_str(metric)) } else { format!("greedyn {reps} {} {} {}", hist_str(src), hist_str(tgt), metric_str(metric)) };
+    let short = format!("greedy[{mkind}]{} src={} tgt={}", if reps > 1 { format!(" minimize() x{reps}") } else { String::new() }, hist_str(src), hist_str(tgt));
     let xs: Vec<Abstraction> = src.verif_counts().iter().map(|e| e.0).collect();
     let ys: Vec<Abstraction> = tgt.verif_counts().iter().map(|e| e.0).collect();
     let res = catch(AssertUnwindSafe(|| {
-        let h = Heuristic::from((src, tgt, metric)).minimize();
+        let mut h = Heuristic::from((src, tgt, metric));
+        for _ in 0..reps { h = h.minimize(); }
         let cost = h.cost();
         let mut plan: BTreeMap<u64, f32> = BTreeMap::new();
         let mut flows = vec![vec![None; ys.len()]; xs.len()];
